@@ -539,6 +539,22 @@ func c02ComparePath(env *core.Env, tn string, in []fhir.Resource, tree *model.No
 	}
 	r := fx.Eval(env, src, in, nil, nil)
 	env.Cover("path-compared")
+	// the four keywords the grammar also admits as identifiers (as, contains, in, is) need no back-ticks as element names
+	if plain := strings.ReplaceAll(src, "`", ""); plain != src {
+		plainOK := true
+		for _, nm := range names {
+			if model.IdentSrc(nm) != nm && nm != "as" && nm != "contains" && nm != "in" && nm != "is" {
+				plainOK = false
+			}
+		}
+		if plainOK {
+			env.Cover("keyword-element-plain-spelling")
+			rp := fx.Eval(env, plain, in, nil, nil)
+			if !fx.Same(rp, r) && !(rp.IsError() && r.IsError()) {
+				env.Violatef("C02/navigation/keyword-element-plain-spelling", "`%s` on %s gives %s, the delimited spelling `%s` gives %s", plain, tn, trunc(rp.Short(), 120), src, trunc(r.Short(), 120))
+			}
+		}
+	}
 	if len(expect) > 0 {
 		env.Distinct(tn + "|" + strings.Join(names, "."))
 	}
